@@ -23,9 +23,20 @@ package main
 //@   requires p != nil && w != nil && r != nil && r.Header != nil && p.requests != nil && !held(p.Mutex) && p.requestIDs != nil
 //@   assigns heap
 
+// newID: every request id is derived from exactly one fresh draw of the proxy's own generator (taken under the lock),
+// and from nothing a client controls. (That draws differ from each other is probabilistic and not decided here.)
 //@ func (*proxy).newID props(C01,C07)
 //@   requires p != nil && p.randGenerator != nil && !held(p.Mutex)
 //@   assigns mapof(p.requests)
+//@   ghost draws int = 0
+//@   ghost drawn int = 0
+//@   call (*rand.Rand).Int63
+//@     assert[C01:id-drawn-from-the-proxys-generator-under-the-lock] draws == 0 && arg0 == p.randGenerator && held(p.Mutex)
+//@     do draws = draws + 1
+//@     do drawn = ret0
+//@   call fmt.Sprintf
+//@     assert[C01:id-is-a-function-of-the-draw-only] draws == 1
+//@   ensures[C01:every-id-comes-from-one-fresh-draw] draws == 1
 
 // ServeHTTP, client side. The request is handed to the pending table with only its hop-by-hop header fields
 // removed (C02); it is stored and enqueued under one and the same fresh id, once (C01, C04); the response
